@@ -140,14 +140,17 @@ example : roundTrip ex7 = some (printExpr ff0 ex7) := by decide +kernel
 example : roundTrip ex8 = some (printExpr ff0 ex8) := by decide +kernel
 example : roundTrip ex9 = some (printExpr ff0 ex9) := by decide +kernel
 
-/-- WITNESS that the key condition of `Canon` is needed (a real defect of `quoteString`, ast/node.go):
-    the parser accepts the map key `'\xff'` (one invalid UTF-8 byte, copied by `unquoteString`), the
-    printer writes it as U+FFFD, which reads back as the three bytes EF BF BD — a different key.
-    Text: `['\xff': 1]` prints as `['�': 1]`. -/
-theorem invalid_utf8_key_not_requotable :
-    Quote.unquoteString [39, 255, 39] = some [255] ∧
-    quoteString [255] = [39, 239, 191, 189, 39] ∧
-    Quote.unquoteString (quoteString [255]) = some [239, 191, 189] := by decide
+/-- `['\xff': 1]` (a map key that is one invalid UTF-8 byte) — before the repair of `quoteString` /
+    `unquoteString` this tree did not round-trip (the key was printed as U+FFFD) -/
+def exKey : Expr := .map 0 (.cons [255] (i 1) .nil)
+example : printExpr ff0 exKey = [91, 39, 255, 39, 58, 32, 49, 93] := by decide
+theorem canon_exKey : Canon ff0 pf0 exKey := by
+  simp only [exKey, i, Canon, CanonM, SortedKeys, keysOf]; decide
+example : ∃ e', parseExprEntry pf0 (withPos 0 (toks ff0 exKey ++ [tEOF])) = .ok e' ∧ erase e' = erase exKey :=
+  print_parse_roundtrip_tokens ff0 pf0 exKey canon_exKey _ (withPos_carries 0 _)
+/-- invalid bytes next to escapes take the slow path of `unquoteString`: `\xff'\n\xc3` -/
+example : Quote.unquoteString (quoteString [255, 39, 10, 195]) = some [255, 39, 10, 195] ∧
+    quoteString [255, 39, 10, 195] = [39, 255, 92, 39, 92, 110, 195, 39] := by decide
 
 /-- keys with every escape and multi-byte runes re-quote: `a\n\r\t\b\f'\é€😀` -/
 example : Quote.unquoteString (quoteString [97, 10, 13, 9, 8, 12, 39, 92, 195, 169, 226, 130, 172, 240, 159, 152, 128]) =
